@@ -62,6 +62,37 @@
 //	          that must be sorted before use, `fmt.Fprint(w, b.String())` is `call:fmt.Fprint`.
 //	          robustness.sh (beside this file) replays the seeded regressions, the reverts of the
 //	          map-order repairs, every harmless patch under seeded/benign and variants/*.diff.
+//	helpers   (P1) in the effect summary of a function of the analysed packages, a store through a
+//	          path rooted at one of its parameters (receiver included) that is a pointer to a struct
+//	          and is never assigned in the function is tagged with the parameter (`arg<i>:`).
+//	          (P2) at a call whose argument for that parameter is `v` / `&v` for a FRESH local v
+//	          declared inside the loop body (every value v is given is a composite literal, make,
+//	          new, a struct copy `*p`, or the result of a function all of whose returns are such:
+//	          one new object per element — the same condition under which the stores `v.f = e`
+//	          written in the body itself were never effects) the tagged effects are dropped; when
+//	          the argument is itself such a parameter of the function being summarised the tag is
+//	          handed on to its caller; in every other case (the element of the map, a field, an
+//	          object that lives across the iterations) the tag is removed and the effect counts.
+//	          Everything else the helper does (stores through other parameters, globals, calls) is
+//	          an effect as before, and a helper that assigns its parameter gets no tag.  So the
+//	          classification of a loop does not change when statements of its body that work on
+//	          the element's fresh copy move into an unexported helper or method (`nc.stamp(p, ns)`,
+//	          `dupDirInto(&ne, e)`), and does change when the helper is applied to shared memory.
+//	split     (I1) when the body of a walk over a map does nothing but append one value per element
+//	          to ONE local slice (its only effect is that append), a later `range` over that slice
+//	          in the same function is the second half of the same walk: it is keyed by the map's
+//	          own expression (`Modules.Modules`, kind `inherited`) instead of `order-of …`, so it is
+//	          matched by — and COUNTED with — the reviewed entries for walks over that map.  A
+//	          filling loop with any other effect, a slice that went through another variable, or
+//	          a walk in another function keeps the `order-of` key.
+//	sorters   (S1, derived.go) a function of the analysed packages sorts its slice parameter p, and
+//	          a call of it counts as a sort of that argument, when its body is exactly: early
+//	          `if <call-free condition> { return }` / local type declarations; `ks := make([]T,
+//	          len(p))`; one loop `for i, m := range p` that stores only into ks[i] and gives one
+//	          field F of the literal the element m itself; one library sorter on ks; one loop
+//	          `for i := range ks { p[i] = ks[i].F }` (decorate - sort - undecorate).  Anything else
+//	          in the body (a second store into p, another carrier, no sorter) and the function is
+//	          an ordinary one: its argument "is passed to … unsorted".
 //	facts     per element type, the least number of keys any sort comparator over slices of that
 //	          type compares (a tie-break that is removed shows here).
 //
